@@ -437,6 +437,40 @@ func (w *World) AnnounceAgain(t *Tape) (tx *wire.MsgTx, conflictFree bool) {
 	return tx, conflictFree
 }
 
+// PayHash mines one block on the tip with a transaction that pays amount to
+// the standard script of holder hash h, funded by a spendable coin of nobody's
+// wallet. It reports whether such a coin existed.
+//
+//go:norace
+func (w *World) PayHash(t *Tape, h [32]byte, amount int64) bool {
+	tip := w.Node.Tip()
+	view := w.Gen.utxoAt(tip)
+	var src *genCoin
+	for _, c := range sortedCoins(view) {
+		if c.owner < 2 && c.cls == ClassStd && c.value > amount+200000 && tip.Height+1 >= c.height && tip.Height+1-c.height >= c.lock() {
+			src = c
+			break
+		}
+	}
+	if src == nil {
+		return false
+	}
+	tx := wire.NewMsgTx()
+	tx.AddTxIn(wire.NewTxIn(&src.op, dummyWitness()))
+	tx.AddTxOut(wire.NewTxOut(amount, stdScript(h)))
+	if rest := src.value - amount - 100000; rest > 0 {
+		hh, _ := w.Gen.pickPayee(t, 0)
+		tx.AddTxOut(wire.NewTxOut(rest, stdScript(hh)))
+	}
+	b := w.Gen.NewBlock(t, tip, []*wire.MsgTx{tx})
+	w.Node.Attach(b)
+	w.SyncTips()
+	w.Announce(b)
+	w.logBlock("pay", b)
+	w.Stat("op.directed_payment")
+	return true
+}
+
 // AllDelivered reports whether every running instance has an empty queue.
 //
 //go:norace
